@@ -439,8 +439,8 @@ def run(ctx):
     big = ctx.tier == "thorough" or bool(ctx.broken)
     bad_cover = sweep(ctx, lab, 400 if big else 120)
     sentinel_runs(ctx, lab, bad_cover, 14 if big else 4)
-    kernels = make_kernels(ctx, lab, 40 if ctx.tier == "thorough" else (16 if big else 8))
-    nontrivial = real_runs(ctx, lab, kernels, 4 if ctx.tier == "thorough" else (3 if big else 2))
+    kernels = make_kernels(ctx, lab, 48 if ctx.tier == "thorough" else (20 if big else 12))
+    nontrivial = real_runs(ctx, lab, kernels, 4 if ctx.tier == "thorough" else 3)
     report_runs(ctx, lab, kernels, 2 if ctx.tier == "thorough" else 1)
     ctx.cov["evaluations"] = (ctx.counts.get("sweep_runs", 0) + ctx.counts.get("sentinel_runs", 0)
                               + ctx.counts.get("parallel_runs", 0) + ctx.counts.get("report_runs", 0) + ctx.counts.get("cli_runs", 0))
